@@ -7,7 +7,7 @@ from sa.props import _axes_schema as S
 
 verbose = '-v' in sys.argv
 want = [a for a in sys.argv[1:] if not a.startswith('-')]
-m = Model()
+m = Model(form='normal')
 eng = axes.Engine(m, S.schema(), debug=verbose)
 for mod, cls, meth in S.VM_METHODS + S.STAR_METHODS:
     if want and ('%s.%s' % (cls, meth)) not in want:
